@@ -60,6 +60,7 @@ type Contract struct {
 	Opaque   map[string]bool // callees whose contracts are ignored (havoc) in this function
 	Notes    []string
 	Fields   map[string][]string // classification of the receiver struct's fields by kind (reset contracts)
+	Stable   []string            // package-level variables assumed not to be modified by uncontracted calls
 }
 
 type ContractSet struct {
@@ -67,12 +68,14 @@ type ContractSet struct {
 	Funcs     map[string]*Contract // key: pkgpath + "." + Func ; for trusted: qualified name e.g. "slices.Insert"
 	Order     []string
 	Axioms    []Clause // global axioms (trusted) about uninterpreted spec functions
+	Ghosts    map[string]string // ghost variable name -> Go type
+	GhostOrd  []string
 	AxiomsSrc map[string]string
 	Files     []string
 }
 
 func newContractSet() *ContractSet {
-	return &ContractSet{Specs: map[string]*SpecFn{}, Funcs: map[string]*Contract{}, AxiomsSrc: map[string]string{}}
+	return &ContractSet{Specs: map[string]*SpecFn{}, Funcs: map[string]*Contract{}, AxiomsSrc: map[string]string{}, Ghosts: map[string]string{}}
 }
 
 var labelRe = regexp.MustCompile(`^\[([A-Za-z0-9_.:\-]+)\]\s*`)
@@ -139,6 +142,15 @@ func (cs *ContractSet) parseContractFile(path, pkgPath string, trusted bool) err
 				}
 			}
 			cs.Specs[sf.Name] = sf
+		case "ghost":
+			f := strings.Fields(rest)
+			if len(f) != 2 {
+				return fmt.Errorf("%s: ghost <name> <type>", src)
+			}
+			if _, dup := cs.Ghosts[f[0]]; !dup {
+				cs.GhostOrd = append(cs.GhostOrd, f[0])
+			}
+			cs.Ghosts[f[0]] = f[1]
 		case "axiom":
 			c, err := parseClause(rest, src)
 			if err != nil {
@@ -261,6 +273,8 @@ func (cs *ContractSet) parseContractFile(path, pkgPath string, trusted bool) err
 				}
 			case "note":
 				cur.Notes = append(cur.Notes, rest)
+			case "stable":
+				cur.Stable = append(cur.Stable, strings.Fields(strings.ReplaceAll(rest, ",", " "))...)
 			case "fields":
 				kind, names, ok := strings.Cut(rest, ":")
 				if !ok {
